@@ -293,13 +293,59 @@ func TestC06Prune(t *testing.T) {
 }
 
 // ---------------------------------------------------------------------------------------
-// command level: gotree prune with tips as arguments, -f tip file, -c compared tree, -r
+// command level: gotree prune with tips as arguments, -f tip file (one name per line, comma-separated on one line, or one long line in which a drawn name straddles byte 4096 / 8192 / 65536), -c compared tree, -r
 
 type CliCase struct {
 	Case
 	Mode  string      `json:"mode"` // args | file | comp
 	More  []*ref.Node `json:"more,omitempty"` // further trees of the input stream: the first tree plus extra tips
 	First bool        `json:"more_first,omitempty"`
+	// tip file layout (mode "file"): "lines" = one name per line; "commas" = all names on one
+	// line; "long" = one line in which absent names push the name Names[Straddle%len] across
+	// the byte offset Boundary (a multiple of bufio's 4096-byte buffer)
+	Layout   string `json:"layout,omitempty"`
+	Boundary int    `json:"boundary,omitempty"`
+	Straddle int    `json:"straddle,omitempty"`
+}
+
+// tipFile lays the names out as the case asks.
+func (c CliCase) tipFile() string {
+	switch c.Layout {
+	case "commas":
+		return strings.Join(c.Names, ",") + "\n"
+	case "long":
+		if len(c.Names) == 0 {
+			return "\n"
+		}
+		k := c.Straddle % len(c.Names)
+		target := c.Names[k]
+		var b strings.Builder
+		for i, n := range c.Names {
+			if i != k {
+				b.WriteString(n + ",")
+			}
+		}
+		// the target starts 1..len-1 bytes before the boundary (a one-byte name ends on it)
+		before := len(target) - 1
+		if before < 1 {
+			before = 1
+		}
+		start := c.Boundary - 1 - (c.Straddle/7)%before
+		for i := 0; b.Len() < start; i++ {
+			pad := fmt.Sprintf("zzpad%d,", i)
+			if rest := start - b.Len(); rest < len(pad)+2 {
+				pad = strings.Repeat("_", rest-1) + "," // never a tip name
+			}
+			b.WriteString(pad)
+		}
+		b.WriteString(target + ",zzpadlast\n")
+		return b.String()
+	}
+	text := ""
+	for _, n := range c.Names {
+		text += n + "\n"
+	}
+	return text
 }
 
 func (c CliCase) stream() []*ref.Node {
@@ -341,11 +387,7 @@ func checkCli(c CliCase) error {
 	case "args":
 		args = append(args, c.Names...)
 	case "file":
-		text := ""
-		for _, n := range c.Names {
-			text += n + "\n"
-		}
-		args = append(args, "-f", cli.Write(dir, "tips.txt", text))
+		args = append(args, "-f", cli.Write(dir, "tips.txt", c.tipFile()))
 	case "comp":
 		// the compared tree holds the tips that are NOT named (plus a foreign one): the command
 		// removes the tips of the input tree that are absent from the compared tree
@@ -419,13 +461,20 @@ func trim(s string) string {
 func TestC06Cli(t *testing.T) {
 	h.Run(t, h.Spec[CliCase]{
 		Property: "C06", Name: "cli", Quick: 2400, Thorough: 48000,
-		Rule: "the same trees and removal sets through `gotree prune`: tips as arguments, -f tip file, -c compared tree (tips absent from it are removed), each with and without -r; half of the inputs are streams of 2-3 trees with different tip sets, each of which must be pruned on its own; every printed tree is compared with the induced subtree of the reference model; non-trivial = >= 1 tip removed and >= 1 multifurcation or rooted tree",
+		Rule: "the same trees and removal sets through `gotree prune`: tips as arguments, -f tip file (one name per line, comma-separated on one line, or one long line in which a drawn name straddles byte 4096 / 8192 / 65536), -c compared tree (tips absent from it are removed), each with and without -r; half of the inputs are streams of 2-3 trees with different tip sets, each of which must be pruned on its own; every printed tree is compared with the induced subtree of the reference model; non-trivial = >= 1 tip removed and >= 1 multifurcation or rooted tree",
 		Gen: func(t *rapid.T, thorough bool) CliCase {
 			c := CliCase{Case: genCase(t, false), Mode: rapid.SampledFrom([]string{"args", "file", "comp"}).Draw(t, "mode")}
 			if c.Mode == "args" && len(c.Names) == 0 {
 				c.Mode = "file"
 			}
 			c.Reroot = 0
+			if c.Mode == "file" {
+				c.Layout = rapid.SampledFrom([]string{"lines", "lines", "commas", "long"}).Draw(t, "layout")
+				if c.Layout == "long" {
+					c.Boundary = rapid.SampledFrom([]int{4096, 4096, 8192, 65536}).Draw(t, "boundary")
+					c.Straddle = rapid.IntRange(0, 1000).Draw(t, "straddle")
+				}
+			}
 			for i, n := 0, rapid.SampledFrom([]int{0, 0, 1, 2}).Draw(t, "nmore"); i < n; i++ {
 				c.More = append(c.More, withExtraTips(t, c.Tree, rapid.IntRange(1, 3).Draw(t, "nextra")))
 			}
@@ -444,7 +493,7 @@ func TestC06Cli(t *testing.T) {
 					removed++
 				}
 			}
-			return removed >= 1 && (c.Tree.MaxDegree() > 3 || len(c.Tree.Ch) == 2), []string{"mode:" + c.Mode, fmt.Sprintf("revert=%v", c.Revert)}
+			return removed >= 1 && (c.Tree.MaxDegree() > 3 || len(c.Tree.Ch) == 2), []string{"mode:" + c.Mode, fmt.Sprintf("revert=%v", c.Revert), "layout:" + c.Layout}
 		},
 	})
 }
